@@ -19,6 +19,7 @@ type Profile struct {
 	Opt       Options
 	W         Weights
 	JointBias bool // prefer explicit joint changes that swap voters for non-voters (disjoint majorities)
+	HoldPct   int  // per cent of node events that leave their Ready outstanding (Step between Ready and Advance, as node.run does)
 }
 
 // profiles cycles through cluster shapes / options so that one seed covers all of them.
@@ -35,6 +36,8 @@ func profiles(nodes int) []Profile {
 	specw.Conf, specw.Compact, specw.Partition, specw.Drop = 0, 0, 0, 14
 	specpv := specw // two-phase elections need about twice the campaigns to change leaders as often
 	specpv.Campaign = 6
+	windoww := noconf
+	windoww.Propose, windoww.Campaign, windoww.Drop, windoww.Compact = 22, 5, 9, 1
 	if nodes == -1 { // profiles inside the scope of EtcdRaft.tla (trace validation, B2)
 		return []Profile{
 			{Name: "n3-spec", Opt: Options{N: 3, Voters: three}, W: specw},
@@ -54,6 +57,9 @@ func profiles(nodes int) []Profile {
 		{Name: "n5", Opt: Options{N: 5, Voters: []uint64{1, 2, 3, 4, 5}, MaxEnts: 1}, W: faulty},
 		{Name: "n4-learner", Opt: Options{N: 4, Voters: three, Learners: []uint64{4}, CheckQuorum: true}, W: w},
 		{Name: "n5-joint", Opt: Options{N: 5, Voters: three}, W: jointw, JointBias: true},
+		// the application is slow: Readys stay outstanding while the node keeps stepping messages, proposals and ticks
+		{Name: "n3-window", Opt: Options{N: 3, Voters: three}, W: windoww, HoldPct: 35},
+		{Name: "n3-window-faulty", Opt: Options{N: 3, Voters: three}, W: faulty, HoldPct: 25},
 	}
 	if nodes > 0 {
 		var r []Profile
@@ -208,6 +214,20 @@ func (c *Cluster) RandomRun(r *rand.Rand, p Profile, events int, payload *int) {
 				down = append(down, n)
 			}
 		}
+		hold := false
+		if p.HoldPct > 0 {
+			var held []*Node
+			for _, n := range c.nodes {
+				if n.rn != nil && n.held != nil {
+					held = append(held, n)
+				}
+			}
+			if len(held) > 0 && r.Intn(100) < 30 {
+				c.Do(Event{Ev: "release", Node: int(held[r.Intn(len(held))].id), Hold: r.Intn(100) < p.HoldPct})
+				continue
+			}
+			hold = r.Intn(100) < p.HoldPct
+		}
 		ws := []int{w.Deliver, w.Tick, w.Campaign, w.Propose, w.Conf, w.Drop, w.Dup, w.Partition, w.Heal, w.Crash, w.Restart, w.Compact}
 		if len(c.bag) == 0 {
 			ws[0], ws[5], ws[6] = 0, 0, 0
@@ -236,23 +256,23 @@ func (c *Cluster) RandomRun(r *rand.Rand, p Profile, events int, payload *int) {
 		}
 		switch pick(r, ws) {
 		case 0:
-			c.Do(Event{Ev: "deliver", A: r.Intn(len(c.bag))})
+			c.Do(Event{Ev: "deliver", A: r.Intn(len(c.bag)), Hold: hold})
 		case 1:
 			n := up[r.Intn(len(up))]
 			if len(ld) > 0 && r.Intn(3) > 0 {
 				n = ld[r.Intn(len(ld))]
 			}
-			c.Do(Event{Ev: "tick", Node: int(n.id)})
+			c.Do(Event{Ev: "tick", Node: int(n.id), Hold: hold})
 		case 2:
-			c.Do(Event{Ev: "campaign", Node: int(up[r.Intn(len(up))].id)})
+			c.Do(Event{Ev: "campaign", Node: int(up[r.Intn(len(up))].id), Hold: hold})
 		case 3:
 			*payload++
-			c.Do(Event{Ev: "propose", Node: int(ld[r.Intn(len(ld))].id), P: *payload})
+			c.Do(Event{Ev: "propose", Node: int(ld[r.Intn(len(ld))].id), P: *payload, Hold: hold})
 		case 4:
 			n := ld[r.Intn(len(ld))]
 			if cc := genConf(r, n, len(c.nodes), p.JointBias); cc != nil {
 				*payload++
-				c.Do(Event{Ev: "confchange", Node: int(n.id), P: *payload, CC: cc})
+				c.Do(Event{Ev: "confchange", Node: int(n.id), P: *payload, CC: cc, Hold: hold})
 			}
 		case 5:
 			c.Do(Event{Ev: "drop", A: r.Intn(len(c.bag))})
